@@ -367,60 +367,6 @@ theorem gff_rejects_region_start_zero (o : Gff.Oracles) (name s e : Bytes) (more
   rw [this]
   simp [Gff.resToCall, handlePanic]
 
-/-! ## the guards of the source, regenerated on every run
-
-The models index `fields[k]` exactly where the code does and guard exactly as the code does;
-these are the length guards and constant index expressions found in the reader functions of the
-working tree (`harness gen`, go/ast).  A guard that disappears, weakens or moves, or a field
-constant that changes position, breaks this theorem before any input is run. -/
-
-open Biogo.Generated.FeatIO in
-theorem source_guards_as_modelled :
-    gffFields = ["nameField", "sourceField", "featureField", "startField", "endField", "scoreField",
-                 "strandField", "frameField", "attributeField", "commentField", "lastField"] ∧
-    bedFields = ["chromField", "startField", "endField", "nameField", "scoreField", "strandField",
-                 "thickStartField", "thickEndField", "rgbField", "blockCountField", "blockSizesField",
-                 "blockStartsField"] ∧
-    gffVersion = "2" ∧
-    gff_Read =
-      ["guard len(line) == 0", "guard len(line) == 0", "index line[0]",
-       "guard len(fields) <= frameField",
-       "index fields[nameField]", "index fields[sourceField]", "index fields[featureField]",
-       "index fields[startField] via mustAtoPos", "index fields[endField] via mustAtoi",
-       "index fields[scoreField] via mustAtofPtr", "index fields[strandField] via mustAtos",
-       "index fields[frameField] via mustAtoFr",
-       "guard len(fields) <= attributeField", "index fields[attributeField] via mustAtoa",
-       "guard len(fields) <= commentField", "index fields[commentField]"] ∧
-    gff_commentMetaline =
-      ["guard len(fields) < 1", "index fields[0]",
-       "guard len(fields) <= 1", "index fields[1] via mustAtoi",
-       "guard len(fields) <= 1",
-       "guard len(fields) <= 1", "guard len(r.TimeFormat) > 0",
-       "guard len(fields) <= 1", "index fields[1]", "guard len(fields) > 2", "index fields[2]",
-       "guard len(fields) <= 3", "index fields[1]", "index fields[2] via mustAtoPos", "index fields[3] via mustAtoi",
-       "guard len(fields) <= 1", "index fields[0]", "index fields[1]"] ∧
-    gff_metaSeq = ["guard len(line) == 0", "guard len(line) == 0", "guard len(line) < 2"] ∧
-    gff_mustAtoa = ["guard len(f) == 0", "guard len(tag) == 0"] ∧
-    gff_mustAtos = ["guard len(f[index]) != 1", "index f[index][0]"] ∧
-    gff_mustAtofPtr = ["guard len(f[index]) == 1", "index f[index][0]"] ∧
-    gff_mustAtoFr = ["guard len(f[index]) == 1", "index f[index][0]"] ∧
-    bed_parseBed3 = ["guard len(f) < n", "index f[chromField]", "index f[startField]", "index f[endField]"] ∧
-    bed_parseBed4 = ["guard len(f) < n", "index f[chromField]", "index f[startField]", "index f[endField]",
-                     "index f[nameField]"] ∧
-    bed_parseBed5 = ["guard len(f) < n", "index f[chromField]", "index f[startField]", "index f[endField]",
-                     "index f[nameField]", "index f[scoreField]"] ∧
-    bed_parseBed6 = ["guard len(f) < n", "index f[chromField]", "index f[startField]", "index f[endField]",
-                     "index f[nameField]", "index f[scoreField]", "index f[strandField]"] ∧
-    bed_parseBed12 = ["guard len(f) < n", "index f[chromField]", "index f[startField]", "index f[endField]",
-                      "index f[nameField]", "index f[scoreField]", "index f[strandField]", "index f[thickStartField]",
-                      "index f[thickEndField]", "index f[rgbField]", "index f[blockCountField]",
-                      "index f[blockSizesField]", "index f[blockStartsField]"] ∧
-    bed_mustAtoRgb = ["guard l == 0", "guard l == 1", "index c[0]", "guard l < 3", "index c[0]", "index c[1]",
-                      "index c[2]"] ∧
-    bed_mustAtos = ["guard len(f) != 1", "index f[0]"] ∧
-    bed_mustAtoa = ["guard len(f) == 0"] ∧
-    bed_Read = ["guard len(line) == 0"] := by
-  decide
 
 /-! ## the `##date` line: `time.Parse("2006-1-02", ·)` modelled exactly
 
